@@ -4,7 +4,7 @@
    (ANY value, also >= 2^32 - 1 or a multiple of 2^16) and the atomic increments of uniqid.go:32
    are linearised as [sched] says; [run_seq s h] = one caller executing newID as written
    (recursion on 0). Observations: [OIssue caller request identifier], [OAck request-ordinal]. *)
-From MQ Require Import Base Ids Ids_proofs.
+From MQ Require Import Base Ids Ids_proofs CheckC15.
 Open Scope N_scope.
 
 (* "Packet identifiers chosen by the client are never 0": for all start values, all numbers of
@@ -119,6 +119,18 @@ Proof. exists 100, (f13_history P16). exact f13_witness. Qed.
 Theorem C15_reuse_period : forall s n, issued s (n + 65535) = issued s n.
 Proof. exact issued_period. Qed.
 
+(* the predicate the harness evaluates on what the implementation did (V_* results, CheckC15.v)
+   is exactly what is proved of every run of the model *)
+Theorem C15_checked_predicate : forall s progs sched h,
+  c15_prop_ok (run_conc s progs sched) = true /\ c15_prop_ok (run_seq s h) = true.
+Proof.
+  intros s progs sched h. unfold c15_prop_ok. split.
+  - rewrite (canonical_nonzero s _ (run_conc_canonical s progs sched)),
+            (canonical_young s _ (run_conc_canonical s progs sched)), run_conc_given_kept. reflexivity.
+  - rewrite (canonical_nonzero s _ (run_seq_canonical s h)),
+            (canonical_young s _ (run_seq_canonical s h)), run_seq_given_kept. reflexivity.
+Qed.
+
 Print Assumptions C15_nonzero.
 Print Assumptions C15_nonzero_seq.
 Print Assumptions C15_one_retry.
@@ -133,3 +145,4 @@ Print Assumptions C15_wrap.
 Print Assumptions C15_caller_id_kept.
 Print Assumptions C15_strict_refuted.
 Print Assumptions C15_reuse_period.
+Print Assumptions C15_checked_predicate.
